@@ -18,6 +18,8 @@ From TS Require Proofs.C15_GoItem Proofs.C15_GoFile.
 From TS Require Import Spec.C15RenderScPy.
 From TS Require Proofs.C15_ScalaItem.
 From TS Require Proofs.C15_PythonItem.
+From TS Require Import Spec.C15RenderPyFile.
+From TS Require Proofs.C15_PythonFile.
 Import ListNotations.
 
 (* ---- front end (after the repair of parse_comment_attrs): a doc attribute with value v - which is what `/// v`,
@@ -710,3 +712,53 @@ Theorem C15_py_item_line_free : forall (uc : unicode) (cfg : py_config),
     c15_contained C15py LCode (mark (c15_file_pieces C15py parts)) = true.
 Proof. exact Proofs.C15_PythonItem.C15_py_item_line_free. Qed.
 Print Assumptions C15_py_item_line_free.
+
+(* ---- Python, WHOLE FILES (py_generate: the version docstring; then, printed from the state the body left behind,
+   `from __future__ import annotations`, the sorted `from M import a, b` lines, one  T = TypeVar("T")  line per collected
+   generic parameter, the helper functions of the custom JSON translations (bytes / datetime); then the body: the items in
+   topological order with the printer state threaded through them), no neutrality hypothesis.  For every parsed program
+   whose items are in the class of C15_py_item and whose struct / enum generic parameters may be printed raw between
+   double quotes ([c15_py_item_typevars_ok], Spec/C15RenderPyFile.v: non-empty, no double quote, backslash, LF, CR - the
+   TypeVar line prints the name bare and quoted), with type_mappings targets as there and a version string without three
+   double quotes in a row ([c15_py_version_ok]: it is printed verbatim inside the docstring at the top of the file): the
+   generated file is code parts and comment fragments whose doc strings are - unless no_version_header is set - the line
+   typeshare writes into the version docstring ([c15_py_header_line]: " Generated by typeshare <version>"), followed by the
+   documented positions of the items in output order (a permutation of the program's items; per item Python's print
+   order), each as written in its form; and the file is contained iff every `# ` string of the items (the doc of a tagged
+   enum) is free of LF / CR (c15_site_ok is constantly true on docstring sites, the version docstring included).  Import
+   block, TypeVar block and helper functions are neutral whatever the items are: the import map only ever receives the
+   names python.rs adds itself, the TypeVar set only generic parameters of the items, the set of translated types only
+   selects among two fixed texts.  Second theorem: with doc strings free of line breaks (every parsed item:
+   C15_parsed_*_line_free) the file is contained. ---- *)
+Theorem C15_py_file : forall (uc : unicode), unicode_ok uc -> forall (cfg : py_config),
+  c15_mappings_plain C15py (py_type_mappings cfg) = true ->
+  c15_py_version_ok (py_version cfg) = true ->
+  forall pd text,
+  forallb c15_py_item_ok (items_of pd) = true ->
+  forallb c15_py_item_typevars_ok (items_of pd) = true ->
+  py_generate uc cfg pd = Ok text ->
+  let header := if py_no_version_header cfg then [] else [c15_py_header_line (py_version cfg)] in
+  exists items parts,
+    topsort (items_of pd) = Ok items /\ Permutation items (items_of pd) /\
+    text = text_of (c15_file_pieces C15py parts) /\
+    docs_of (c15_file_pieces C15py parts) = header ++ map (c15_site_text C15py) (flat_map c15_py_item_sites items) /\
+    c15_contained C15py LCode (mark (c15_file_pieces C15py parts)) =
+      forallb (c15_site_ok C15py) (flat_map c15_py_item_sites items).
+Proof. exact Proofs.C15_PythonFile.C15_py_file_stmt. Qed.
+Print Assumptions C15_py_file.
+Theorem C15_py_file_line_free : forall (uc : unicode), unicode_ok uc -> forall (cfg : py_config),
+  c15_mappings_plain C15py (py_type_mappings cfg) = true ->
+  c15_py_version_ok (py_version cfg) = true ->
+  forall pd text,
+  forallb c15_py_item_ok (items_of pd) = true ->
+  forallb c15_py_item_typevars_ok (items_of pd) = true ->
+  Forall (fun d => safe_line eol_lf_cr d = true) (flat_map c15_item_docs (items_of pd)) ->
+  py_generate uc cfg pd = Ok text ->
+  let header := if py_no_version_header cfg then [] else [c15_py_header_line (py_version cfg)] in
+  exists items parts,
+    topsort (items_of pd) = Ok items /\ Permutation items (items_of pd) /\
+    text = text_of (c15_file_pieces C15py parts) /\
+    docs_of (c15_file_pieces C15py parts) = header ++ map (c15_site_text C15py) (flat_map c15_py_item_sites items) /\
+    c15_contained C15py LCode (mark (c15_file_pieces C15py parts)) = true.
+Proof. exact Proofs.C15_PythonFile.C15_py_file_line_free_stmt. Qed.
+Print Assumptions C15_py_file_line_free.
